@@ -1163,9 +1163,24 @@ def _angle_cos_sin(k, ctx):
         gi = ctx.gen_index[name]
         if k.numer.degree(gi) != 1 or k.denom.degree(gi) > 0:
             continue
+        quarter = 0
         q = k / ctx.gens[name]
         if not (q.numer.is_ground and q.denom.is_ground):
-            continue
+            # m * atom + j * pi/2: split off the part that does not contain the atom
+            try:
+                rest = k.numer.compose(ctx.K.ring.gens[gi], ctx.K.ring.zero)
+                rest_k = ctx.K.new(rest, k.denom)
+            except Exception:   # noqa
+                continue
+            lin = k - rest_k
+            q = lin / ctx.gens[name]
+            jq = rest_k / ctx.kpi * 2
+            if not (q.numer.is_ground and q.denom.is_ground and jq.numer.is_ground and jq.denom.is_ground):
+                continue
+            jf = (_q2f(jq.numer.LC) if jq.numer != 0 else Fraction(0)) / _q2f(jq.denom.LC)
+            if jf.denominator != 1:
+                continue
+            quarter = int(jf) % 4
         f = _q2f(q.numer.LC) / _q2f(q.denom.LC)
         if f.denominator != 1:
             continue
@@ -1177,7 +1192,12 @@ def _angle_cos_sin(k, ctx):
             rc, rs = rc * c - rs * s_, rc * s_ + rs * c
         rc = _reduce_sqrt_k(rc, ctx)
         rs = _reduce_sqrt_k(rs, ctx)
-        return (rc, -rs if m < 0 else rs)
+        if m < 0:
+            rs = -rs
+        # exact quarter turns
+        for _ in range(quarter):
+            rc, rs = -rs, rc
+        return (rc, rs)
     return None
 
 
